@@ -5,7 +5,7 @@
 package target
 
 // Every function under contract in this package also serves the properties that depend on the whole package.
-//@ package-props C17
+//@ package-props C17 C12
 
 // The current configuration is only touched under Config.mu; it is always a valid
 // one (NewConfigWithBase and Load validate before storing), and the handler calls
